@@ -156,6 +156,18 @@ func burnMonitor(s *chainsim.Step, v func(key, what string)) {
 		}
 	}
 	s.Tag("burn:" + outcomeOf(s) + ":" + inputClass)
+	// observation (not a clause of the statement): the contract keys the burn nonce by the exact string
+	if ok && inputClass == "valid-input" {
+		if strings.TrimSpace(pl.Addr) == "" {
+			s.Tag("observation:burn-accepted-with-blank-address")
+		}
+		for a := range postN {
+			if a != pl.Addr && strings.EqualFold(strings.TrimSpace(a), strings.TrimSpace(pl.Addr)) {
+				s.Tag("observation:same-ethereum-address-in-two-spellings-has-two-burn-nonce-counters")
+				break
+			}
+		}
+	}
 }
 
 func burnAlphabet(w *world.World, min currency.Coin) []chainsim.Action {
@@ -179,6 +191,13 @@ func burnAlphabet(w *world.World, min currency.Coin) []chainsim.Action {
 		// c2 is poor (see world options): value above the balance
 		call(w, "c2", "zcnsc", "burn", map[string]string{"ethereum_address": ethB}, min, 0, "[addr=0xBB,v=min,poor]"),
 		call(w, "c2", "zcnsc", "burn", map[string]string{"ethereum_address": ethB}, 3*min, 0, "[addr=0xBB,v=3min,poor]"),
+		// the same things spelled differently: address A in lower case, address A with blanks around it, a blank
+		// address, the address key written twice (the last one wins in Go's decoder)
+		call(w, "c0", "zcnsc", "burn", map[string]string{"ethereum_address": strings.ToLower(ethA)}, min, 0, "[addr=0xaa-lowercase,v=min]"),
+		call(w, "c1", "zcnsc", "burn", map[string]string{"ethereum_address": " " + ethA + " "}, min, 0, "[addr=0xAA-padded,v=min]"),
+		call(w, "c0", "zcnsc", "burn", map[string]string{"ethereum_address": " "}, min, 0, "[addr=blank,v=min]"),
+		call(w, "c0", "zcnsc", "burn", `{"ethereum_address":"","ethereum_address":"`+ethA+`"}`, min, 0, "[addr-key-twice(empty,0xAA),v=min]"),
+		call(w, "c0", "zcnsc", "burn", `{"ethereum_address":"`+ethA+`","ethereum_address":""}`, min, 0, "[addr-key-twice(0xAA,empty),v=min]"),
 	)
 	return acts
 }
@@ -192,6 +211,19 @@ func c19(run *ev.Run) {
 		return &world.TxnSpec{From: f, To: w.Actors["c0"].ID, Type: transaction.TxnTypeSend, Value: x.Bal(f.ID) - 2500, Nonce: x.Nonce(f) + 1}
 	}}
 	acts := burnAlphabet(w, min)
+	if !run.Thorough() {
+		// quick tier: 18 of the 24 letters (the thorough tier keeps all)
+		var keep []chainsim.Action
+		for _, a := range acts {
+			n := a.Name
+			if strings.Contains(n, "(c0)[addr=0xBB,v=min+1]") || strings.Contains(n, "(c0)[addr=,v=min+1]") || strings.Contains(n, "(c0)[addr=,v=min-1]") ||
+				strings.Contains(n, "extra-nonce-field") || strings.Contains(n, "padded") || strings.Contains(n, "addr-key-twice(0xAA,empty)") {
+				continue
+			}
+			keep = append(keep, a)
+		}
+		acts = keep
+	}
 	run.Rule = "BFS over all sequences of bridge burns (2 burners + 1 poor burner, target addresses {A, B, empty}, values {min-1, min, min+1, 0, above balance}, malformed payload, with fee) up to the depth bound; oracle per transition: success => burner -(value+fee), bridge wallet +value, burn nonce of exactly the target address +1, every other bridge user node and account unchanged; below-minimum / no-address / failed / rejected => no ledger change beyond fee"
 	explore(run, w, acts, [][]chainsim.Action{{poor}}, run.Pick(4, 6), true, 50, 780, burnMonitor)
 }
